@@ -22,6 +22,9 @@ Proof.
     try (exfalso; apply H; reflexivity).
 Qed.
 
+Lemma nth_map_in {A B} (f : A -> B) l i d e : i < length l -> nth i (map f l) e = f (nth i l d).
+Proof. intros H. rewrite nth_indep with (d' := f d) by (rewrite map_length; exact H). apply map_nth. Qed.
+
 Lemma combine_seq_nth {A} (l : list A) (s i : nat) d e : i < length l ->
   nth i (combine (seq s (length l)) l) (d, e) = (s + i, nth i l e).
 Proof.
@@ -36,9 +39,8 @@ Lemma clear_idx_nth idx sel i : i < length sel ->
   nth i (clear_idx idx sel) false = negb (mem_nat i idx) && nth i sel false.
 Proof.
   intros Hi. unfold clear_idx.
-  rewrite nth_indep with (d' := (fun q : nat * bool => if mem_nat (fst q) idx then false else snd q) (0, false))
-    by (rewrite map_length, combine_length, seq_length; lia).
-  rewrite map_nth, combine_seq_nth by exact Hi. cbn. destruct (mem_nat i idx); reflexivity.
+  rewrite nth_map_in with (d := (0, false)) by (rewrite combine_length, seq_length; lia).
+  rewrite combine_seq_nth by exact Hi. cbn. destruct (mem_nat i idx); reflexivity.
 Qed.
 
 Lemma clear_idx_nil sel : clear_idx [] sel = sel.
@@ -54,13 +56,9 @@ Lemma and_mask_nth a b i : length a = length b -> i < length a ->
   nth i (and_mask a b) false = nth i a false && nth i b false.
 Proof.
   intros Hl Hi. unfold and_mask.
-  rewrite nth_indep with (d' := (fun q : bool * bool => fst q && snd q) (false, false))
-    by (rewrite map_length, combine_length; lia).
-  rewrite map_nth, combine_nth by exact Hl. reflexivity.
+  rewrite nth_map_in with (d := (false, false)) by (rewrite combine_length; lia).
+  rewrite combine_nth by exact Hl. reflexivity.
 Qed.
-
-Lemma nth_map_in {A B} (f : A -> B) l i d e : i < length l -> nth i (map f l) e = f (nth i l d).
-Proof. intros H. rewrite nth_indep with (d' := f d) by (rewrite map_length; exact H). apply map_nth. Qed.
 
 (* ------------------------------------------------------------------ Python slices *)
 Lemma slice_to_nonneg {A} (l : list A) k : (0 <= k)%Z ->
@@ -77,10 +75,10 @@ Qed.
 
 (* l[-0:] is the whole list: the source of finding F01 *)
 Lemma slice_from_minus_zero {A} (l : list A) : slice_from l (- 0) = l.
-Proof. unfold slice_from, py_norm. cbn. reflexivity. Qed.
+Proof. unfold slice_from, py_norm. cbn. replace (Z.to_nat (Z.min 0 (Z.of_nat (length l)))) with 0 by lia. reflexivity. Qed.
 
 Lemma slice_to_zero {A} (l : list A) : slice_to l 0 = [].
-Proof. unfold slice_to, py_norm. cbn. reflexivity. Qed.
+Proof. unfold slice_to, py_norm. cbn. replace (Z.to_nat (Z.min 0 (Z.of_nat (length l)))) with 0 by lia. reflexivity. Qed.
 
 Lemma slice_to_length {A} (l : list A) k : (0 <= k)%Z -> length (slice_to l k) = Nat.min (Z.to_nat k) (length l).
 Proof. intros Hk. rewrite slice_to_nonneg by exact Hk. rewrite firstn_length. lia. Qed.
@@ -104,9 +102,9 @@ Qed.
 
 Lemma In_skipn_nth {A} (l : list A) k x d : In x (skipn k l) -> exists a, k <= a /\ a < length l /\ nth a l d = x.
 Proof.
-  revert k. induction l as [|y l IH]; intros k H; destruct k; cbn in H; try contradiction.
-  - destruct (In_nth _ _ d H) as [a [Ha E]]. exists a. repeat split; try lia; assumption.
-  - destruct (IH k H) as [a [Ha [Hl E]]]. exists (S a). cbn. repeat split; try lia. exact E.
+  revert k. induction l as [|y l IH]; intros k H; destruct k; try (cbn in H; contradiction).
+  - rewrite skipn_O in H. destruct (In_nth _ _ d H) as [a [Ha E]]. exists a. repeat split; try lia; assumption.
+  - cbn in H. destruct (IH k H) as [a [Ha [Hl E]]]. exists (S a). cbn. repeat split; try lia. exact E.
 Qed.
 
 Lemma nth_In_skipn {A} (l : list A) k a d : k <= a -> a < length l -> In (nth a l d) (skipn k l).
@@ -133,9 +131,13 @@ Section Generic.
   Lemma value_mask_length c a b x : length (value_mask O c a b x) = length x.
   Proof.
     unfold value_mask.
-    destruct (fltb O (upper_rel c) F1), (fltb O F0 (lower_rel c));
-      repeat (rewrite and_mask_length); rewrite ?map_length; try reflexivity;
-      repeat (rewrite and_mask_length); rewrite ?map_length; reflexivity.
+    assert (L0 : length (map (fun _ : K => true) x) = length x) by apply map_length.
+    assert (La : forall f : K -> bool, length (map f (map (xrel_of O a b) x)) = length x) by (intros f; rewrite !map_length; reflexivity).
+    destruct (fltb O (upper_rel c) F1), (fltb O F0 (lower_rel c)).
+    - rewrite and_mask_length; rewrite and_mask_length; rewrite ?L0, ?La; reflexivity.
+    - rewrite and_mask_length; rewrite ?L0, ?La; reflexivity.
+    - rewrite and_mask_length; rewrite ?L0, ?La; reflexivity.
+    - exact L0.
   Qed.
 
   Lemma value_mask_nth c x i : i < length x ->
@@ -148,14 +150,17 @@ Section Generic.
     assert (H1 : nth i (map (fun _ : K => true) x) false = true).
     { rewrite nth_map_in with (d := F0) by exact Hi. reflexivity. }
     assert (Lxr : length xr = length x) by (unfold xr; apply map_length).
+    assert (L0 : length (map (fun _ : K => true) x) = length x) by apply map_length.
+    assert (La : forall f : K -> bool, length (map f xr) = length x) by (intros f; rewrite map_length; exact Lxr).
     destruct (fltb O F0 (lower_rel c)) eqn:E1, (fltb O (upper_rel c) F1) eqn:E2.
-    - rewrite and_mask_nth; [| rewrite and_mask_length; rewrite !map_length; [congruence | congruence]
-                             | rewrite and_mask_length; rewrite !map_length; [exact Hi | congruence]].
-      rewrite and_mask_nth by (rewrite !map_length; [congruence | exact Hi]).
+    - assert (L1 : length (and_mask (map (fun _ : K => true) x) (map (fun r : K => fleb O (lower_rel c) r) xr)) = length x).
+      { rewrite and_mask_length; rewrite ?L0, ?La; reflexivity. }
+      rewrite and_mask_nth; [| rewrite L1, La; reflexivity | rewrite L1; exact Hi].
+      rewrite and_mask_nth; [| rewrite L0, La; reflexivity | rewrite L0; exact Hi].
       rewrite H1, !Hxr. cbn. rewrite andb_true_iff. tauto.
-    - rewrite and_mask_nth by (rewrite !map_length; [congruence | exact Hi]).
+    - rewrite and_mask_nth; [| rewrite L0, La; reflexivity | rewrite L0; exact Hi].
       rewrite H1, !Hxr. cbn. split; [intros H; split; [auto | discriminate] | intros [H _]; auto].
-    - rewrite and_mask_nth by (rewrite !map_length; [congruence | exact Hi]).
+    - rewrite and_mask_nth; [| rewrite L0, La; reflexivity | rewrite L0; exact Hi].
       rewrite H1, !Hxr. cbn. split; [intros H; split; [discriminate | auto] | intros [_ H]; auto].
     - rewrite H1. split; [intros _; split; discriminate | reflexivity].
   Qed.
@@ -346,3 +351,203 @@ Section Generic.
     rewrite <- Ea, <- Eb. destruct SP as [_ Hs]. apply Hs; lia.
   Qed.
 End Generic.
+
+(* ------------------------------------------------------------------ Part 2: the real-number instance *)
+From Coq Require Import Reals Lra.
+Open Scope R_scope.
+
+Definition Rleb (a b : R) : bool := if Rle_dec a b then true else false.
+Definition Rltb (a b : R) : bool := if Rlt_dec a b then true else false.
+Definition Reqb (a b : R) : bool := if Req_EM_T a b then true else false.
+(* int(r): truncation towards zero *)
+Definition Rtrunc (r : R) : Z := if Rle_dec 0 r then Int_part r else (- Int_part (- r))%Z.
+
+Definition ROps : FOps R :=
+  {| f0 := 0; f1 := 1; fsub := Rminus; fmul := Rmult; fdiv := Rdiv;
+     fleb := Rleb; fltb := Rltb; feqb := Reqb; fofZ := IZR; ftrunc := Rtrunc |}.
+
+Lemma Rleb_true a b : Rleb a b = true <-> a <= b.
+Proof. unfold Rleb. destruct (Rle_dec a b); split; intros; try assumption; try reflexivity; try discriminate; contradiction. Qed.
+Lemma Rltb_true a b : Rltb a b = true <-> a < b.
+Proof. unfold Rltb. destruct (Rlt_dec a b); split; intros; try assumption; try reflexivity; try discriminate; contradiction. Qed.
+Lemma Reqb_true a b : Reqb a b = true <-> a = b.
+Proof. unfold Reqb. destruct (Req_EM_T a b); split; intros; try assumption; try reflexivity; try discriminate; contradiction. Qed.
+Lemma Rltb_false a b : Rltb a b = false <-> b <= a.
+Proof. unfold Rltb. destruct (Rlt_dec a b); split; intros; try reflexivity; try discriminate; lra. Qed.
+Lemma Reqb_false a b : Reqb a b = false <-> a <> b.
+Proof. unfold Reqb. destruct (Req_EM_T a b); split; intros; try assumption; try reflexivity; try discriminate; contradiction. Qed.
+
+Lemma Rleb_trans a b c : Rleb a b = true -> Rleb b c = true -> Rleb a c = true.
+Proof. rewrite !Rleb_true. lra. Qed.
+
+(* np.min / np.max over R *)
+Lemma vmin_R_spec h t : In (vmin ROps h t) (h :: t) /\ forall v, In v (h :: t) -> vmin ROps h t <= v.
+Proof.
+  unfold vmin. revert h. induction t as [|a t IH]; intros h.
+  - cbn. split; [left; reflexivity | intros v [<- | []]; lra].
+  - cbn [fold_left]. cbn [fltb ROps]. unfold Rltb at 1. destruct (Rlt_dec a h) as [Hlt | Hge].
+    + destruct (IH a) as [Hin Hle]. split.
+      * destruct Hin as [E | Hin]; [right; left; exact E | right; right; exact Hin].
+      * intros v [<- | [<- | Hv]].
+        -- apply Rle_trans with a; [apply Hle; left; reflexivity | lra].
+        -- apply Hle. left. reflexivity.
+        -- apply Hle. right. exact Hv.
+    + destruct (IH h) as [Hin Hle]. split.
+      * destruct Hin as [E | Hin]; [left; exact E | right; right; exact Hin].
+      * intros v [<- | [<- | Hv]].
+        -- apply Hle. left. reflexivity.
+        -- apply Rle_trans with h; [apply Hle; left; reflexivity | lra].
+        -- apply Hle. right. exact Hv.
+Qed.
+
+Lemma vmax_R_spec h t : In (vmax ROps h t) (h :: t) /\ forall v, In v (h :: t) -> v <= vmax ROps h t.
+Proof.
+  unfold vmax. revert h. induction t as [|a t IH]; intros h.
+  - cbn. split; [left; reflexivity | intros v [<- | []]; lra].
+  - cbn [fold_left]. cbn [fltb ROps]. unfold Rltb at 1. destruct (Rlt_dec h a) as [Hlt | Hge].
+    + destruct (IH a) as [Hin Hle]. split.
+      * destruct Hin as [E | Hin]; [right; left; exact E | right; right; exact Hin].
+      * intros v [<- | [<- | Hv]].
+        -- apply Rle_trans with a; [lra | apply Hle; left; reflexivity].
+        -- apply Hle. left. reflexivity.
+        -- apply Hle. right. exact Hv.
+    + destruct (IH h) as [Hin Hle]. split.
+      * destruct Hin as [E | Hin]; [left; exact E | right; right; exact Hin].
+      * intros v [<- | [<- | Hv]].
+        -- apply Hle. left. reflexivity.
+        -- apply Rle_trans with h; [lra | apply Hle; left; reflexivity].
+        -- apply Hle. right. exact Hv.
+Qed.
+
+Definition Rmin_list (x : list R) : R := xmin_of ROps x.
+Definition Rmax_list (x : list R) : R := xmax_of ROps x.
+
+Lemma Rmin_list_spec x : x <> [] -> In (Rmin_list x) x /\ forall v, In v x -> Rmin_list x <= v.
+Proof. destruct x as [|h t]; [congruence|]. intros _. apply vmin_R_spec. Qed.
+Lemma Rmax_list_spec x : x <> [] -> In (Rmax_list x) x /\ forall v, In v x -> v <= Rmax_list x.
+Proof. destruct x as [|h t]; [congruence|]. intros _. apply vmax_R_spec. Qed.
+
+(* normalised value over R *)
+Definition xrel_R (x : list R) (i : nat) : R := (nth i x 0 - Rmin_list x) / (Rmax_list x - Rmin_list x).
+
+Lemma xrel_R_eq x i : xrel_i ROps x i = xrel_R x i.
+Proof. reflexivity. Qed.
+
+Lemma xrel_R_range x i : (i < length x)%nat -> Rmin_list x <> Rmax_list x -> 0 <= xrel_R x i <= 1.
+Proof.
+  intros Hi Hne. assert (Hx : x <> []) by (destruct x; [cbn in Hi; lia | congruence]).
+  destruct (Rmin_list_spec x Hx) as [Hmi Hmin]. destruct (Rmax_list_spec x Hx) as [Hma Hmax].
+  assert (Hlt : Rmin_list x < Rmax_list x) by (specialize (Hmax _ Hmi); lra).
+  assert (Hv := nth_In x 0 Hi). specialize (Hmin _ Hv). specialize (Hmax _ Hv).
+  unfold xrel_R. split.
+  - apply Rmult_le_pos; [lra | left; apply Rinv_0_lt_compat; lra].
+  - apply Rmult_le_reg_r with (Rmax_list x - Rmin_list x); [lra|]. unfold Rdiv.
+    rewrite Rmult_assoc, Rinv_l by lra. lra.
+Qed.
+
+(* the shortcut: Ellipsis is returned exactly when all entries are equal *)
+Theorem shortcut_R c isort x : active_set ROps c isort x = AS_All <-> (x <> [] /\ forall v w, In v x -> In w x -> v = w).
+Proof.
+  destruct (result_cases ROps c isort x) as [[-> E] | [[Hx [Hz E]] | [Hx [Hz [m E]]]]].
+  - rewrite E. split; [discriminate | intros [H _]; congruence].
+  - rewrite E. split; [|reflexivity]. intros _. split; [exact Hx|].
+    cbn [feqb fsub f0 ROps] in Hz. apply Reqb_true in Hz.
+    destruct (Rmin_list_spec x Hx) as [_ Hmin]. destruct (Rmax_list_spec x Hx) as [_ Hmax].
+    unfold Rmin_list, Rmax_list in *. intros v w Hv Hw.
+    pose proof (Hmin v Hv). pose proof (Hmin w Hw). pose proof (Hmax v Hv). pose proof (Hmax w Hw). lra.
+  - rewrite E. split; [discriminate|]. intros [_ Hall]. exfalso.
+    cbn [feqb fsub f0 ROps] in Hz. apply Reqb_false in Hz. apply Hz.
+    destruct (Rmin_list_spec x Hx) as [Hmi _]. destruct (Rmax_list_spec x Hx) as [Hma _].
+    unfold Rmin_list, Rmax_list in *. rewrite (Hall _ _ Hma Hmi). lra.
+Qed.
+
+(* the band theorem over R: kept  <->  lower_rel <= xrel_i <= upper_rel  and not removed by a count *)
+Theorem band_R c isort x : x <> [] -> ~ (forall v w, In v x -> In w x -> v = w) ->
+  exists m, active_set ROps c isort x = AS_Mask m /\ length m = length x /\
+    forall i, (i < length x)%nat ->
+      (nth i m false = true <->
+       lower_rel c <= xrel_R x i <= upper_rel c
+       /\ ~ In i (removed_lo ROps c isort (Z.of_nat (length x)))
+       /\ ~ In i (removed_hi ROps c isort (Z.of_nat (length x)))).
+Proof.
+  intros Hx Hneq.
+  destruct (result_cases ROps c isort x) as [[-> E] | [[_ [Hz E]] | [_ [Hz [m E]]]]]; [congruence | |].
+  - exfalso. apply Hneq. apply (proj1 (shortcut_R c isort x) E).
+  - exists m. split; [exact E|]. destruct (band ROps c isort x m E) as [Hl B]. split; [exact Hl|].
+    intros i Hi. rewrite (B i Hi). unfold value_ok. rewrite xrel_R_eq.
+    cbn [feqb fsub f0 ROps] in Hz. apply Reqb_false in Hz.
+    assert (Hr : 0 <= xrel_R x i <= 1).
+    { apply xrel_R_range; [exact Hi|]. unfold Rmin_list, Rmax_list. lra. }
+    cbn [fltb fleb f0 f1 ROps]. rewrite !Rltb_true, !Rleb_true.
+    split.
+    + intros [[H1 H2] H3]. split; [|exact H3]. split.
+      * destruct (Rlt_dec 0 (lower_rel c)); [auto | lra].
+      * destruct (Rlt_dec (upper_rel c) 1); [auto | lra].
+    + intros [[H1 H2] H3]. split; [|exact H3]. split; intros _; assumption.
+Qed.
+
+(* the counts are the fractions rounded down to whole entries *)
+Lemma Rtrunc_nonneg r : 0 <= r -> (0 <= Rtrunc r)%Z /\ IZR (Rtrunc r) <= r < IZR (Rtrunc r) + 1.
+Proof.
+  intros H. unfold Rtrunc. destruct (Rle_dec 0 r); [|contradiction].
+  destruct (base_Int_part r) as [H1 H2]. split.
+  - apply le_IZR. apply Rnot_lt_le. intros Hlt.
+    assert (IZR (Int_part r) <= -1) by (apply IZR_le; apply lt_IZR in Hlt; lia). lra.
+  - lra.
+Qed.
+
+Theorem n_lower_floor c n : 0 <= lower_amt c -> (0 <= n)%Z ->
+  (0 <= n_lower ROps c n)%Z /\
+  IZR (n_lower ROps c n) <= IZR n * lower_amt c < IZR (n_lower ROps c n) + 1.
+Proof.
+  intros Ha Hn. unfold n_lower. cbn [ftrunc fmul fofZ ROps]. apply Rtrunc_nonneg.
+  apply Rmult_le_pos; [apply IZR_le; exact Hn | exact Ha].
+Qed.
+
+Theorem n_upper_floor c n : upper_amt c <= 1 -> (0 <= n)%Z ->
+  (0 <= n_upper ROps c n)%Z /\
+  IZR (n_upper ROps c n) <= IZR n * (1 - upper_amt c) < IZR (n_upper ROps c n) + 1.
+Proof.
+  intros Ha Hn. unfold n_upper. cbn [ftrunc fmul fsub f1 fofZ ROps]. apply Rtrunc_nonneg.
+  apply Rmult_le_pos; [apply IZR_le; exact Hn | lra].
+Qed.
+
+(* a fraction that rounds down to zero entries removes nothing *)
+Theorem small_fraction_removes_nothing_lo c isort n : (0 <= n)%Z -> 0 <= lower_amt c -> IZR n * lower_amt c < 1 ->
+  removed_lo ROps c isort n = [].
+Proof.
+  intros Hn Ha Hlt. apply zero_lower_removes_nothing.
+  destruct (n_lower_floor c n Ha Hn) as [H0 [H1 H2]].
+  assert (n_lower ROps c n < 1)%Z by (apply lt_IZR; lra). lia.
+Qed.
+
+Theorem small_fraction_removes_nothing_hi c isort n : (0 <= n)%Z -> upper_amt c <= 1 -> IZR n * (1 - upper_amt c) < 1 ->
+  removed_hi ROps c isort n = [].
+Proof.
+  intros Hn Ha Hlt. apply zero_upper_removes_nothing.
+  destruct (n_upper_floor c n Ha Hn) as [H0 [H1 H2]].
+  assert (n_upper ROps c n < 1)%Z by (apply lt_IZR; lra). lia.
+Qed.
+
+(* removed entries are extremes, over R, for any sorting permutation *)
+Definition sorting_perm_R (x : list R) (p : list nat) : Prop :=
+  Permutation p (seq 0 (length x)) /\
+  forall a b, (a < b)%nat -> (b < length x)%nat -> nth (nth a p 0%nat) x 0 <= nth (nth b p 0%nat) x 0.
+
+Lemma sorting_perm_R_iff x p : sorting_perm_R x p <-> sorting_perm ROps x p.
+Proof.
+  unfold sorting_perm_R, sorting_perm, nthK. cbn [fleb f0 ROps].
+  split; intros [Hp Hs]; (split; [exact Hp|]); intros a b Hab Hb; specialize (Hs a b Hab Hb);
+    [apply Rleb_true; exact Hs | apply Rleb_true in Hs; exact Hs].
+Qed.
+
+Theorem removed_are_extremes_R c x p : sorting_perm_R x p ->
+  (forall j i, In j (removed_lo ROps c p (Z.of_nat (length x))) -> (i < length x)%nat ->
+               ~ In i (removed_lo ROps c p (Z.of_nat (length x))) -> nth j x 0 <= nth i x 0) /\
+  (forall j i, In j (removed_hi ROps c p (Z.of_nat (length x))) -> (i < length x)%nat ->
+               ~ In i (removed_hi ROps c p (Z.of_nat (length x))) -> nth i x 0 <= nth j x 0).
+Proof.
+  intros SP. apply sorting_perm_R_iff in SP. split; intros j i Hj Hi Hni.
+  - apply Rleb_true. exact (removed_lo_are_lowest ROps c x p j i SP Hj Hi Hni).
+  - apply Rleb_true. exact (removed_hi_are_highest ROps c x p j i SP Hj Hi Hni).
+Qed.
